@@ -31,19 +31,23 @@ func (p *Program) Sources() map[string]string {
 
 // Feat selects which constructs the generator may emit.
 type Feat struct {
-	Spies       bool // spy filters/functions/tests (fallible callbacks)
-	MapLoops    bool // for over maps / hash literals / map filters
-	Include     bool
-	Inherit     bool
-	Macros      bool
-	Sandbox     bool
-	ErrorsPct   int  // percentage of programs seeded with a failing construct
-	RelPaths    bool // template names in directories, ./ and ../ references
-	Dashes      bool // whitespace-control dashes
-	BigText     bool
-	SpyPrefix   string
-	BlockDashes bool // dashes on block tags too (many forms are rejected by the parser; used where error outcomes are compared as well)
-	SpyPct      int  // probability (percent) that an expression position is wrapped in a spy
+	Spies     bool // spy filters/functions/tests (fallible callbacks)
+	MapLoops  bool // for over maps / hash literals / map filters
+	Include   bool
+	Inherit   bool
+	Macros    bool
+	Sandbox   bool
+	ErrorsPct int  // percentage of programs seeded with a failing construct
+	RelPaths  bool // template names in directories, ./ and ../ references
+	// MacroFiltered: macro calls that are filtered, concatenated or stored before they are printed. This engine prints
+	// the address of the call's closure there instead of running the macro (seen, not claimed: C12), so the output
+	// differs between BINARIES; only for checks that never compare across binaries.
+	MacroFiltered bool
+	Dashes        bool // whitespace-control dashes
+	BigText       bool
+	SpyPrefix     string
+	BlockDashes   bool // dashes on block tags too (many forms are rejected by the parser; used where error outcomes are compared as well)
+	SpyPct        int  // probability (percent) that an expression position is wrapped in a spy
 }
 
 type gen struct {
@@ -496,6 +500,9 @@ func (g *gen) seg(d int) string {
 			}
 			def := g.open("macro "+m+"(a, b = "+g.at("macro-default", func() string { return g.wrapSpy(g.strLit()) })+")") + "[" + g.print("a") + "|" + g.print("b") + "]" + g.at("macro-body", func() string { return g.body(0) }) + g.open("endmacro")
 			call := g.print(m + "(" + g.at("macro-arg", func() string { return g.wrapSpy(g.scalar(1)) }) + ")")
+			if g.f.MacroFiltered && g.r.P(50) {
+				call += pick(g.r, []string{g.print(m + "(1)|upper"), g.print("(" + m + "(2)) ~ 'x'"), g.open("set mv = "+m+"(3)") + g.print("mv|upper"), g.print("_self." + m + "(4)|trim")})
+			}
 			if g.r.P(40) {
 				call += g.print("_self." + m + "(" + g.scalar(0) + ", " + g.scalar(0) + ")")
 			}
